@@ -18,6 +18,8 @@ CORE = ["ALPHA", "BIT", "CHAR", "CR", "CRLF", "CTL", "DIGIT", "DQUOTE", "HEXDIG"
 def _sweep(args):
     lo, hi, from_subclass = args
     P = lib.import_repo()
+    import pollute
+    pollute.pollute(P)
     cls = type("FreshSub", (P.Rule,), {}) if from_subclass else P.Rule
     out = {}
     for name in CORE:
@@ -42,6 +44,8 @@ def _sweep(args):
 def run(ctx):
     P = lib.import_repo()
     cc.proof_part(ctx)
+    import pollute
+    other, look = pollute.pollute(P)   # "as seen from any grammar": whatever other grammars defined before
     table = {}
     for part in lib.run_driver(["b1table"])[0].split(";"):
         toks = part.split()
@@ -81,6 +85,7 @@ def run(ctx):
     strings = ["".join(t) for n in range(0, maxlen + 1) for t in itertools.product(alph, repeat=n)]
     lines = []
     exp = []
+    pollute.preparse(P, look, strings)
     sub = type("FreshSub2", (P.Rule,), {})
     for name in CORE:
         for cls in (P.Rule, sub):
